@@ -119,6 +119,15 @@ def task(p, cse, key, k, tier, seed):
             part.violation(key_base + "/concrete-exception", f"sensor_model raises {type(ex).__name__}: {ex} on a valid input", path)
             return part.d
         conc.append((e, got))
+        # concrete differential at the seeded point (also decides changes that leave the encodable fragment, e.g. a
+        # call into LAPACK/scipy on the update path, where the symbolic run below can only report a harness error)
+        sp = spec_float(p, key, e)
+        badc = [nm for nm in ("state", "cov", "S", "innov") if np.shape(got[nm]) != np.shape(sp[nm]) or not np.allclose(got[nm], sp[nm], rtol=1e-6, atol=1e-8)]
+        part.record(Q("sat" if badc else "unsat", None, 0.0, ""), f"{key_base}: real update == specification at a seeded point (concrete)")
+        if badc:
+            path = write_replay(PID, {"key": key_base + "/seeded-point", "info": {"program": p.id, "cse": cse, "sensor": key, "k": k}, "inputs": e})
+            part.violation(key_base + "/seeded-point", f"sensor_model differs from the Kalman correction at the seeded point {e}: {badc} (e.g. {badc[0]}: got {np.round(got[badc[0]], 6).tolist()} expected {np.round(sp[badc[0]], 6).tolist()})", path)
+            return part.d
 
     def harness():
         with installed(), quiet():
